@@ -405,6 +405,15 @@ def quadric_line_magnitudes(ctx):
             res = C.intersect(g.Line(g.Point(*p), g.Point(*q)))
             ok = len(res) == 2 and all(any(same(x, k, 1e-6) for x in res) for k in (p, q))
             ctx.ensure("circle-far-from-the-origin:secant-returns-the-two-known-points", ok, witness=dict(offset=D, line=(p, q), got=str([np.asarray(x.normalized_array).round(4).tolist() for x in res])[:200]))
+        if D <= 100:
+            # short chords: two distinct common points 1e-3 apart must both be returned (single line and the same line in a collection)
+            for th in (0.4, 2.0, 4.1):
+                p, q = (c[0] + math.cos(th), c[1] + math.sin(th)), (c[0] + math.cos(th + 1e-3), c[1] + math.sin(th + 1e-3))
+                L = g.Line(g.Point(*p), g.Point(*q))
+                res = C.intersect(L)
+                resc = C.intersect(g.LineCollection([L.array, L.array]))
+                ok = len(res) == 2 and all(any(same(x, k, 1e-7) for x in res) for k in (p, q)) and len(resc) == 2 and not (res[0] == res[1])
+                ctx.ensure("circle:short-chord-returns-both-points", ok, witness=dict(offset=D, angle=th, got=str([np.asarray(x.normalized_array).round(6).tolist() for x in res])[:200]))
         res = C.intersect(g.Line(g.Point(c[0] + 3, c[1]), g.Point(c[0] + 3, c[1] + 1)))
         ctx.ensure("circle-far-from-the-origin:missing-line-gives-two-complex-points", len(res) == 2 and not any(bool(np.all(x.isreal)) for x in res), witness=dict(offset=D))
         if D > 5000:
